@@ -3,8 +3,8 @@ CFG = {
     "level_text": "Proof for the model, the reference semantics and the interval checker, for all operation lists and all instants: "
                   "the Gallina model of app/bcache (member map + deadline index, explicit clock, repairs D3/D24/D32) returns what the "
                   "index-free reference map returns (C12_refines) and keeps 'index = exactly the timed keys' (C12_index); Get returns the "
-                  "entry last stored and not deleted/cleared since, never past its deadline and always while now + g < deadline "
-                  "(C12_get_live, g = float64 score granularity, 256 ns today); untimed entries survive every sweep and a sweep removes "
+                  "entry last stored and not deleted/cleared since, never past its deadline and always while now + 1024 < deadline, or for ever when the stored deadline is <= 0 "
+                  "(C12_get_live; 1024 = largest float64 spacing on int64, the spacing at today's UnixNano is 256 ns); untimed entries survive every sweep and a sweep removes "
                   "exactly the timed entries with score in [0, fl now] (C12_untimed_survive, C12_sweep_exact, C12_count); SetIfAbsent / Replace "
                   "conditions (C12_setifabsent, C12_replace); Export then Clear+Load reproduces the non-expired entries with deadlines and a "
                   "rebuilt index (C12_roundtrip); Load onto an ARBITRARY cache stores exactly the data entries not expired at the load instant, "
@@ -25,15 +25,21 @@ CFG = {
                   "(4) A Load entry whose deadline falls inside the Load's own clock bracket, over a key that already has an abstract entry, makes "
                   "that key 'Wild' in the interval checker (every observation on it is accepted until the next definite store/hit/export): "
                   "sound for no-false-alarm, blind for that key in that rare window; decided_b rejects such traces as undecided. "
-                  "(5) Sampled configurations: default expiry per trace from {40ms, 120ms, 0, 0 without the option, NoExpire, -5ms, -1h}, capture "
-                  "callback no-op / nil / recording, every TTL kind (NoExpire, DefaultExpire via Set(k,v,0) and via SetDefault, 40ms/120ms/1h/1y, "
-                  "negatives) with Set/SetDefault/SetIfAbsent/Replace in every profile; NOT varied: a custom SetSentinelFn (VerifSweep would "
+                  "(6) int64 overflow of the deadline is modelled as the runtime does it (observed on Go 1.23: time.Now().Add(d).UnixNano() wraps, "
+                  "Time.Add does not saturate for these d): a TTL with now + TTL >= 2^63 (more than ~235 years today) stores a NEGATIVE Expire; the code "
+                  "treats it as never expiring (isVisit = Expire > 0 is false, the negative score sits in the index below the sweep range [0, now], "
+                  "GetWithExpire shows the zero time, Export/Load carry the negative value). That is not a defect - the property demands the entry for the "
+                  "next centuries anyway - and is proved as C12_wrap_negative / C12_wrapped_never_expires; changing isVisit to Expire != 0 loses such live "
+                  "entries and is reported as kind 2. In the interval checker a store whose clock bracket straddles the overflow point makes the key Wild. "
+                  "(5) Sampled configurations: default expiry per trace from {40ms, 120ms, 0, 0 without the option, NoExpire, -5ms, -1h, MaxInt64, 250 years}, capture "
+                  "callback no-op / nil / recording, every TTL kind (NoExpire, DefaultExpire via Set(k,v,0) and via SetDefault, 40ms/120ms/1h/1y, MaxInt64, 250 years, TTLs within 1 s / 1 ms / 3 us / 400 ns / 1 ns of the overflow point MaxInt64 - now, "
+                  "negatives; synthetic Load/Restore blobs with negative and near-MaxInt64 deadlines) with Set/SetDefault/SetIfAbsent/Replace in every profile; NOT varied: a custom SetSentinelFn (VerifSweep would "
                   "call it instead of deleteExpire) and a running ticker inside trace runs (background sweeps are not trace steps; the ticker "
                   "is sampled by separate runs); the API has no way to change the default expiry after New.",
     "harness": "c12",
     "theorems": [("C12.Props", [
         "C12_refines", "C12_index", "C12_get_live_generic", "C12_get_live", "C12_untimed_survive", "C12_sweep_exact",
-        "C12_setifabsent", "C12_replace", "C12_count", "C12_roundtrip", "C12_load", "C12_load_multi_instant", "C12_f64r_round", "C12_admissible_complete",
+        "C12_setifabsent", "C12_replace", "C12_count", "C12_roundtrip", "C12_load", "C12_load_multi_instant", "C12_f64_round", "C12_wrap_negative", "C12_wrapped_never_expires", "C12_admissible_complete",
         "C12_kind2_iff_inadmissible", "C12_decided_sound_partial"])],
     "trusted": [
         "every call of one goroutine reads the clock inside the two wall-clock readings recorded around it (traces whose wall clock "
@@ -44,15 +50,15 @@ CFG = {
     ],
     "modelled": [
         "zset skip list + dict abstracted to one list sorted by (score, key) (levels, spans, heights are C03/C17's subject)",
-        "float64(int64) score conversion as f64r g = nearest multiple of g, ties to even (g = 256 for 2^60 <= ns < 2^61; the harness "
-        "asserts the range and the index dump is compared with f64r on every step)",
+        "float64(int64) score conversion as f64 = exact below 2^53, else nearest multiple of 2^(e-52) with ties to even for 2^e <= |x| < 2^(e+1) "
+        "(all of int64; the index dump is compared with f64 on every step); int64 wrap-around of now + TTL as wrap64",
         "time.Now: one instant per call as an explicit input (Replace and Load read the clock more than once; one instant suffices, see Model.v; "
         "for the model run at one witness instant a Load whose entries straddle its own bracket inconsistently is dropped and counted; "
         "the interval checker itself handles one instant per entry)",
         "sentinel ticker: sweeps are explicit trace steps through VerifSweep; the real ticker is only sampled",
         "encoding/json as a codec of map[K]Iterator (Export output parsed by the harness)",
     ],
-    "assumptions": ["UnixNano in [2^60, 2^61) (years 2006-2043)", "restore/load data: unique keys, deadlines >= 0 (op_wf; not needed by C12_admissible_complete)",
-                    "positive, non-decreasing instants (times_ok) for the declarative theorems"],
+    "assumptions": ["recorded clock readings in [2^60, 2^61) (years 2006-2043; only a harness sanity check, the model covers all of int64)", "restore/load data: unique keys (op_wf; not needed by C12_admissible_complete)",
+                    "non-decreasing instants (times_ok) for the declarative theorems"],
     "harness_timeout": 600,
 }
